@@ -21,6 +21,9 @@ struct OracleOpts
     //! propagator moves to the chord/boundary intercept, which may lie up to
     //! delta_intersection beyond the (conservatively reduced) reported length
     double field_disp_tol{0};
+    //! Relative integration error of the field driver (epsilon_step): the end
+    //! point may be off the true helix by this fraction of the path
+    double field_rel_tol{0};
 };
 
 void check_history(History const& h,
